@@ -598,7 +598,7 @@ def c08_extra(ctx):
         cases.append((name, text))
     hdr = 'package g\n\ntype P Peg {\n Trace string\n STrace string\n}\n\n'
     # 254…257: the boundary of the one-byte rule-constant type (the constants, ruleUnknown included, must fit)
-    for n in ([254, 255, 256, 257, 300, 1200] if ctx.tier == 'quick' else [254, 255, 256, 257, 300, 1200, 3000, 65534, 65535, 65536, 70000]):
+    for n in ([254, 255, 256, 257, 300, 1200] if ctx.tier == 'quick' else [254, 255, 256, 257, 300, 1200, 3000, 8000]):      # (tens of thousands of rules give a ~100 MB Go file that the Go compiler needs more than an hour for: out of reach of a check)
         rules = ['R0 <- ' + ' / '.join('R%d' % i for i in range(1, n, 50))]       # the heads of the chains: every rule is reachable
         for i in range(1, n):
             # chains of at most 50 rules: with -inline a chain is compiled as nested blocks, and go/parser refuses more than
